@@ -37,6 +37,69 @@ class _Unk:
 
 UNK = _Unk()
 REL_TOL = Fraction(1, 10**9)
+MAG_TOL = Fraction(1, 10**12)
+
+
+class N:
+    """an exact rational together with what is needed to judge it against a FLOAT computation of the same quantity:
+    `mag` - the largest magnitude met while computing it (float error scales with it), `exact` - no float arithmetic
+    was involved (raw stored values, integers and integer arithmetic)"""
+
+    __slots__ = ("v", "mag", "exact")
+
+    def __init__(self, v, mag=None, exact=True):
+        self.v = Fraction(v)
+        self.mag = abs(self.v) if mag is None else max(mag, abs(self.v))
+        self.exact = exact
+
+    def __repr__(self):
+        return f"N({float(self.v)!r}{'' if self.exact else '~'})"
+
+    # the specification strings only combine numbers through the transformed operators; these are for python builtins
+    def __index__(self):
+        if self.v.denominator != 1:
+            raise TypeError("not an integer")
+        return int(self.v)
+
+    def __int__(self):
+        return int(self.v)
+
+    def __float__(self):
+        return float(self.v)
+
+    def __hash__(self):
+        return hash(self.v)
+
+    def __eq__(self, o):
+        return isinstance(o, N) and o.v == self.v or (not isinstance(o, N) and o == self.v)
+
+    def __lt__(self, o):
+        return self.v < (o.v if isinstance(o, N) else o)
+
+    def __le__(self, o):
+        return self.v <= (o.v if isinstance(o, N) else o)
+
+    def __gt__(self, o):
+        return self.v > (o.v if isinstance(o, N) else o)
+
+    def __ge__(self, o):
+        return self.v >= (o.v if isinstance(o, N) else o)
+
+    def __add__(self, o):
+        return k_bin("+", self, o)
+
+    __radd__ = lambda self, o: k_bin("+", o, self)
+
+    def __sub__(self, o):
+        return k_bin("-", self, o)
+
+    __rsub__ = lambda self, o: k_bin("-", o, self)
+
+    def __neg__(self):
+        return N(-self.v, self.mag, self.exact)
+
+    def __abs__(self):
+        return N(abs(self.v), self.mag, self.exact)
 
 
 class SpecError(Exception):
@@ -44,19 +107,21 @@ class SpecError(Exception):
 
 
 def is_num(v):
-    return isinstance(v, (int, float, Fraction)) and not isinstance(v, bool)
+    return isinstance(v, (int, float, Fraction, N)) and not isinstance(v, bool)
 
 
 def to_q(v):
-    """exact rational of a python number (bool counts as 0/1), UNK otherwise"""
+    """exact rational (class N) of a python number (bool counts as 0/1), UNK otherwise"""
+    if isinstance(v, N):
+        return v
     if isinstance(v, bool):
-        return Fraction(int(v))
+        return N(int(v))
     if isinstance(v, (int, Fraction)):
-        return Fraction(v)
+        return N(v)
     if isinstance(v, float):
         if math.isnan(v) or math.isinf(v):
             return UNK
-        return Fraction(v)
+        return N(Fraction(v))
     return UNK
 
 
@@ -72,6 +137,8 @@ def k_truth(v):
         return False
     if isinstance(v, bool):
         return v
+    if isinstance(v, N):
+        return v.v != 0
     if isinstance(v, (int, float, Fraction)):
         return v != 0
     if isinstance(v, (dict, list, tuple, str)):
@@ -135,13 +202,21 @@ def k_ite(c, a, b):
 
 
 def _cmp_num(op, a, b):
-    if a == b:
+    """a, b: N.  Definite only when the difference is clearly larger than what float arithmetic of the real code can
+    account for: relative 1e-9 of the compared values plus 1e-12 of the largest magnitude met while computing them;
+    two identical values are a definite tie only if neither involved float arithmetic (raw readings, integers)"""
+    exact = a.exact and b.exact
+    if a.v == b.v:
+        if not exact:
+            return None
         d = 0
     else:
-        scale = max(1, abs(a), abs(b))
-        if abs(a - b) <= REL_TOL * scale:
+        tol = REL_TOL * max(1, abs(a.v), abs(b.v))
+        if not exact:
+            tol += MAG_TOL * max(a.mag, b.mag)
+        if abs(a.v - b.v) <= tol:
             return None
-        d = -1 if a < b else 1
+        d = -1 if a.v < b.v else 1
     return {"<": d < 0, "<=": d <= 0, ">": d > 0, ">=": d >= 0, "==": d == 0, "!=": d != 0}[op]
 
 
@@ -167,7 +242,7 @@ def k_cmp1(op, a, b):
     if op in ("==", "!="):
         if a is None or b is None:
             r = a is None and b is None
-        elif isinstance(a, (bool, int, float, Fraction)) and isinstance(b, (bool, int, float, Fraction)):
+        elif isinstance(a, (bool, int, float, Fraction, N)) and isinstance(b, (bool, int, float, Fraction, N)):
             qa, qb = to_q(a), to_q(b)
             if qa is UNK or qb is UNK:
                 return None
@@ -205,25 +280,29 @@ def k_bin(op, a, b):
     qa, qb = to_q(a), to_q(b)
     if qa is UNK or qb is UNK:
         return UNK
+    x, y = qa.v, qb.v
+    ints = x.denominator == 1 and y.denominator == 1 and qa.exact and qb.exact
+    mag = max(qa.mag, qb.mag)
     if op == "+":
-        return qa + qb
+        return N(x + y, mag, ints)
     if op == "-":
-        return qa - qb
+        return N(x - y, mag, ints)
     if op == "*":
-        return qa * qb
+        return N(x * y, max(mag, abs(x * y)), ints)
     if op == "/":
-        return UNK if qb == 0 else qa / qb
+        return UNK if y == 0 else N(x / y, max(mag, abs(x / y)), False)
     if op == "//":
-        return UNK if qb == 0 else Fraction(qa // qb)
+        return UNK if y == 0 else N(Fraction(x // y), mag, ints)
     if op == "%":
-        return UNK if qb == 0 else qa % qb
+        return UNK if y == 0 else N(x % y, mag, ints)
     if op == "**":
-        if qb.denominator == 1 and abs(qb) < 5000:
-            if qa == 0 and qb < 0:
+        if y.denominator == 1 and abs(y) < 5000:
+            if x == 0 and y < 0:
                 return UNK
-            return qa ** int(qb)
+            r = x ** int(y)
+            return N(r, max(mag, abs(r)), ints and y >= 0)
         try:
-            return Fraction(float(qa) ** float(qb))
+            return N(Fraction(float(x) ** float(y)), mag, False)
         except Exception:
             return UNK
     raise SpecError(f"operator {op}")
@@ -313,6 +392,8 @@ def _idx(j):
         return None
     if isinstance(j, int):
         return j
+    if isinstance(j, N):
+        j = j.v
     if isinstance(j, Fraction) and j.denominator == 1:
         return int(j)
     return None
@@ -397,12 +478,12 @@ def Sigma(lo, hi, fn):
     r = _range(lo, hi)
     if r is None:
         return UNK
-    tot = Fraction(0)
+    tot = N(0)
     for j in r:
         q = to_q(fn(j))
         if q is UNK:
             return UNK
-        tot += q
+        tot = k_bin("+", tot, q)
     return tot
 
 
@@ -426,7 +507,7 @@ def _extreme(lo, hi, fn, pick):
     vals = [to_q(fn(j)) for j in r]
     if any(v is UNK for v in vals):
         return UNK
-    return pick(vals)
+    return pick(vals, key=lambda q: q.v)
 
 
 def MinOf(lo, hi, fn):
@@ -441,8 +522,8 @@ def _mm(args, pick):
     qs = [to_q(a) for a in args]
     if any(q is UNK for q in qs):
         return UNK
-    r = pick(qs)
-    return int(r) if all(isinstance(a, int) and not isinstance(a, bool) for a in args) else r
+    r = pick(qs, key=lambda q: q.v)
+    return int(r.v) if all(isinstance(a, int) and not isinstance(a, bool) for a in args) else r
 
 
 def num(v):
@@ -454,28 +535,28 @@ def numb(v):
 
 
 def num0(v):
-    return Fraction(0) if v is None else to_q(v)
+    return N(0) if v is None else to_q(v)
 
 
 def Rnd(x, k):
     q, kk = to_q(x), _idx(k)
     if q is UNK or kk is None:
         return UNK
-    return Fraction(round(float(q), kk))
+    return N(Fraction(round(float(q.v), kk)), q.mag, q.exact)
 
 
 def Hulp(k):
     kk = _idx(k)
     if kk is None:
         return UNK
-    return Fraction(1, 2) / Fraction(10) ** kk
+    return N(Fraction(1, 2) / Fraction(10) ** kk)
 
 
 def Sqrt(x):
     q = to_q(x)
-    if q is UNK or q < 0:
+    if q is UNK or q.v < 0:
         return UNK
-    return Fraction(math.sqrt(float(q)))
+    return N(Fraction(math.sqrt(float(q.v))), q.mag, False)
 
 
 def Abs(x):
@@ -485,7 +566,7 @@ def Abs(x):
 
 def Int(x):
     q = to_q(x)
-    return UNK if q is UNK else int(q)
+    return UNK if q is UNK else int(q.v)
 
 
 def same(a, b):
